@@ -47,6 +47,10 @@ def displacement(kind, pos, adj, atom, seed):
     return np.array([5.0, -3.0, 4.0])
 
 
+class _Positions(np.ndarray):
+    """A user's ndarray subclass (np.asarray of an instance is a base-class VIEW of the same memory)."""
+
+
 class C07(Check):
     pid = 'C07'
     level = 'exploration'
@@ -64,8 +68,8 @@ class C07(Check):
                   'generic coordinates from a conditioned table; values outside the alphabets are not covered')
     assumptions = ['generic coordinates: conditioned table (separation >= 0.08 nm, sin >= 0.25), '
                    'selected by VERIF_SEED; displacements from a 4-class alphabet',
-                   'find_atom_random_displ: helper vector in 2 values, sign in 2, length in 2 '
-                   '(owned np.random)']
+                   'find_atom_random_displ: helper vector in 2 values (3 where a draw almost parallel to the bond/line '
+                   'exists in [0,1)^3), sign in 2, length in 2 (owned np.random)']
 
     def units(self, tier, seed):
         nmax = 7 if tier == 'thorough' else 6
@@ -94,8 +98,10 @@ class C07(Check):
             u.append({'k': 'displ', 'n': n})
         u.append({'k': 'randatom'})
         u.append({'k': 'edit', 'nmax': 5})
-        self.bounds['table_edit_history'] = ('every tree up to 5 atoms x every moved atom: move, then the SAME table '
-                                             'object is edited in place (all lengths x 1.25), move again')
+        self.bounds['table_edit_history'] = ('every tree up to 5 atoms x every moved atom: move, move again from the same '
+                                             'input, move a view of a result, move an ndarray-subclass instance, two '
+                                             'RAISING calls each followed by a move of another molecule, then the SAME '
+                                             'table object is edited in place (all lengths x 1.25), move again')
         return u
 
     def cases(self, unit, tier, seed):
@@ -282,6 +288,31 @@ class C07(Check):
                 R.violation('move/input-modified', cdesc, 'input was a view of an earlier result')
             elif np.abs(np.asarray(r3)[(atom + 1) % n] - (before[(atom + 1) % n] + d)).max() > 1e-12:
                 R.violation('move/moved-atom-not-displaced-by-displ', cdesc, 'input was a view of an earlier result')
+            # an ndarray SUBCLASS as input (a memory-mapped trajectory frame, a user's Positions class): not modified either
+            sub = pos.copy().view(_Positions)
+            before = np.array(sub, float).copy()
+            r4 = move_mol_atom(sub, info, atom, d.copy())
+            if not np.array_equal(np.asarray(sub), before):
+                R.violation('move/input-modified', cdesc, 'input was an instance of an ndarray subclass')
+            elif np.abs(np.asarray(r4)[atom] - (before[atom] + d)).max() > 1e-12:
+                R.violation('move/moved-atom-not-displaced-by-displ', cdesc, 'input was an instance of an ndarray subclass')
+            # calls that RAISE (a displacement of the wrong shape, a negative sigma_scale) between valid calls: the next
+            # valid call, on another molecule with its own table (same tree, 1.7 times larger), is as exact as any
+            for bad in (dict(displ=np.zeros(2)), dict(sigma_scale=-1.0)):
+                try:
+                    move_mol_atom(pos, info, atom, **bad)
+                except Exception:
+                    pass
+                pos2 = pos * 1.7 + np.array([0.4, 0.0, -0.2])
+                info2 = bonds_table(n, edges, pos2, 'geom')
+                a2 = (atom + 1) % n
+                out2 = np.asarray(move_mol_atom(pos2, info2, a2, d.copy()))
+                bad2 = [(a, b) for a, b in edges
+                        if not abs(np.linalg.norm(out2[a] - out2[b]) - dict(info2[a])[b]) <= 1e-9 * dict(info2[a])[b]]
+                if out2.shape != pos2.shape or not np.all(np.isfinite(out2)):
+                    R.violation('move-after-raising-call/non-finite-or-shape', cdesc, f'{sorted(bad)}')
+                elif bad2 or np.abs(out2[a2] - (pos2[a2] + d)).max() > 1e-12:
+                    R.violation('move-after-raising-call/bond-or-moved-atom-wrong', cdesc, f'{sorted(bad)}: {bad2[:3]}')
             for k in list(info):
                 info[k] = [(j, ln * 1.25) for j, ln in info[k]]      # same dict object, new lengths
             out = move_mol_atom(pos, info, atom, d.copy())
@@ -299,11 +330,19 @@ class C07(Check):
         sigma = info[atom][0][1] * case['sigma']
         helpers = [np.array([0.31, 0.77, 0.52]), np.array([0.93, 0.12, 0.64])]
         lengths = [0.7 * sigma, -1.3 * sigma]
+        # where the bond / the line through the two neighbours points into the positive (or negative) octant a legal
+        # draw from [0,1)^3 can be ALMOST PARALLEL to it (1.25e-4 rad off): third helper value there
+        if len(nb) in (1, 2):
+            ax = pos[nb[0]] - (pos[atom] if len(nb) == 1 else pos[nb[1]])
+            if np.all(ax > 0.02) or np.all(ax < -0.02):
+                u = np.abs(ax) / np.linalg.norm(ax)
+                pp = np.cross(u, [0.0, 0.0, 1.0])
+                helpers.append(0.8 * u + 1e-4 * pp / np.linalg.norm(pp))
 
         def run(ctx):
             def script(kind, a, k):
                 if kind == 'rand':
-                    return helpers[ctx.choose(2, 'helper')].copy()
+                    return helpers[ctx.choose(len(helpers), 'helper')].copy()
                 if kind == 'choice':
                     return a[0][ctx.choose(len(a[0]), 'sign')]
                 if kind == 'normal':
